@@ -247,6 +247,8 @@ class FsRef:
         if op == "root":
             self.__init__()
             return "ok"
+        if op == "fds":
+            return "n=0"          # no call of Path / DirectoryVisitor leaves a descriptor open
         if op in ("mkdir", "mkfile"):
             segs = self.segs(t[2])
             parent = self.find(segs[:-1])
@@ -1011,6 +1013,22 @@ def run_impl(binary, wd, cases, tag, timeout=None):
 def run_model(cases, tag):
     if tag == "file":
         cases = [dealias_case(c) for c in cases]
+    if tag == "ps":
+        # `ps fds` (descriptors still open) is a question to the process, not to the model: answered `n=0` on its behalf
+        stripped = [[l for l in c if l != "ps fds"] for c in cases]
+        outs = seqtie.run_stream(None, stripped, tag + " reset", is_driver=True, timeout=HARNESS_TIMEOUT)
+        res = []
+        for c, o in zip(cases, outs):
+            it = iter(o)
+            row = []
+            for l in c:
+                if l == "ps fds":
+                    row.append("n=0")
+                else:
+                    row.append(next(it, "<missing>"))
+            row += list(it)
+            res.append(row)
+        return res
     return seqtie.run_stream(None, cases, tag + " reset", is_driver=True, timeout=HARNESS_TIMEOUT)
 
 
@@ -1196,6 +1214,7 @@ def tie_path(res, binary, wd, tier, rng):
     for i in range(ncases):
         cases.append(gen_fs_case(frng, tier, big=(tier != "quick" and i % 25 == 0)))
     cases += huge_cases() + deep_cases()
+    cases = [c + ["ps fds"] if c[-1] != "ps fds" else c for c in cases]
     exp = [fs_expected(c) for c in cases]
     impl, dirs, nrun = run_batched(binary, wd, cases, exp, "ps", 10, 40)
     cases, exp = cases[:nrun], exp[:nrun]
